@@ -111,6 +111,9 @@ func (ex *Exec) encodeInto(arr, base string, t types.Type, v Val) {
 			for j := int64(0); j < s.width; j++ {
 				ex.sc.assert(mkEq(mkSelect(arr, mkAdd(base, num(s.off+j))), byteOf(u, j)))
 			}
+			// recomposition identity (lemma le_recompose_<w> in lemmas/bytes.smt2): the
+			// little-endian bytes of u put together again give u
+			ex.sc.assert(mkEq(composeLE(arr, mkAdd(base, num(s.off)), s.width), u))
 			continue
 		}
 		for j := int64(0); j < s.width; j++ {
@@ -127,6 +130,10 @@ func (ex *Exec) decodeFrom(arr, base string, t types.Type) Val {
 	out := Val{T: t, L: make([]string, len(leaves))}
 	for _, s := range layoutSlots(t) {
 		if s.count == 0 {
+			for j := int64(0); j < s.width; j++ {
+				b := mkSelect(arr, mkAdd(mkAdd(base, num(s.off)), num(j)))
+				ex.sc.assert(mkAnd(mkCmp("<=", "0", b), mkCmp("<", b, "256"))) // elements of a byte array are bytes
+			}
 			raw := ex.sc.define("dec", sInt, composeLE(arr, mkAdd(base, num(s.off)), s.width))
 			if s.isBool {
 				out.L[s.leaf] = mkNot(mkEq(raw, "0"))
